@@ -334,3 +334,28 @@ fn c08_dec_literals_behave_like_their_value() {
     kani::cover!(f == 0.0 && f.is_sign_positive());
     core::mem::forget((a, b, c, d, z, x));
 }
+
+//@ tier: attempt
+//@ funcs: <Num as Ord>::cmp (BigInt/Float arms), <Num as PartialEq>::eq (BigInt/Float arms), <Num as Hash>::hash (BigInt arm), BigInt::to_f64
+//@ bounds: a big integer holding any value of the i8 range (a SMALL value stored as a big integer; the i64 range ran out of memory at 12 GB in BigInt::to_f64) vs all non-NaN f64, both argument orders
+//@ assume: no NaN
+//@ asserts: cmp is the exact real comparison of v and f, antisymmetric; == exactly when Equal; equal => identical hash stream -- a big-integer 1 and the float 1.0 are the same key
+#[kani::proof]
+#[kani::unwind(42)]
+fn c08_bigint_float_cmp_exact() {
+    let v: i8 = kani::any();
+    let f = any_float_no_nan();
+    let (x, y) = (Num::big_int(BigInt::from(v)), Num::Float(f));
+    let want = m_float(v as f64, f);
+    assert!(x.cmp(&y) == want);
+    assert!(y.cmp(&x) == want.reverse());
+    assert!((x == y) == (want == Equal));
+    assert!((y == x) == (want == Equal));
+    if x == y {
+        assert!(stream(&x).same(&stream(&y)));
+    }
+    kani::cover!(want == Equal && v == 1);
+    kani::cover!(want == Equal && v == 0 && f.is_sign_negative());
+    kani::cover!(want == Less && v < 0);
+    core::mem::forget((x, y));
+}
